@@ -3,6 +3,8 @@ C15 — All read paths agree with each other and with equality / hashing.
 -/
 import Rmk.Proofs.NodeIter
 import Rmk.Proofs.DiffHistory
+import Rmk.Proofs.ItersLaws
+import Rmk.Proofs.ReprBasics
 namespace Rmk.C15
 open Rmk
 
@@ -23,6 +25,67 @@ theorem iter_sound (anchor : Node) (depth length : Nat) (nodes : List Node)
     length ≤ 2 ^ depth ∧ nodes.length = length ∧
       ∀ i, i < length → Impl.getAt anchor i depth = some (nodes.getD i default) :=
   nodeIter_some_getAt anchor depth length nodes h
+
+/-- The PACKED iterator (read-only iteration over basic elements; state `i`, `j`, `rootIndex`,
+    `currentRoot`, stack — mirrored field by field) yields exactly what indexing yields, in order,
+    for every element size, depth and length. -/
+theorem packed_iter_eq_index (H : Hash) (et : Ty) (anchor : Node) (depth length : Nat)
+    (f : Nat → Val) (hsz : 0 < et.basicSize) (hsz32 : et.basicSize ≤ 32)
+    (hlen : length ≤ 2 ^ depth * (32 / et.basicSize))
+    (hleaf : ∀ c, c * (32 / et.basicSize) < length →
+      ∃ n, Impl.getAt anchor c depth = some n ∧ n.isLeaf = true)
+    (hdec : ∀ i, i < length →
+      ((Impl.getAt anchor (i / (32 / et.basicSize)) depth).bind
+        fun c => Impl.readBasicAt H et c (i % (32 / et.basicSize))) = some (f i)) :
+    Impl.packedIter H et anchor depth length = some ((List.range length).map f) :=
+  ItersLaws.packedIter_eq_index H et anchor depth length f hsz hsz32 hlen hleaf hdec
+
+/-- The BIT iterator (bit iteration of bitvectors / bitlists, 256 bits per chunk with wrap-around of
+    the inner counter) yields exactly what bit indexing yields. -/
+theorem bit_iter_eq_index (H : Hash) (anchor : Node) (depth length : Nat) (f : Nat → Bool)
+    (hlen : length ≤ 2 ^ depth * 256)
+    (hleaf : ∀ c, c * 256 < length → ∃ n, Impl.getAt anchor c depth = some n ∧ n.isLeaf = true)
+    (hdec : ∀ i, i < length →
+      (Impl.getAt anchor (i / 256) depth).map (fun c => Impl.bitOfChunk (c.root H) i) = some (f i)) :
+    Impl.bitfieldIter H anchor depth length = some ((List.range length).map f) :=
+  ItersLaws.bitfieldIter_eq_index H anchor depth length f hlen hleaf hdec
+
+/-- ALL READ PATHS AGREE on every tree that represents a value (whatever its history): the complete
+    indexed read returns the value, … -/
+theorem indexed_read (H : Hash) (t : Ty) (v : Val) (n : Node) (hwf : t.wf = true)
+    (hlim : ReprBasics.limitsOk t = true) (h : Impl.Repr H t v n) : Impl.readVal H t n = some v :=
+  ReprBasics.repr_read H t v n hwf hlim h
+
+/-- … the packed iterator yields the elements of a packed vector / list, … -/
+theorem packed_iteration (H : Hash) (et : Ty) (k : Nat) (vs : List Val) (n : Node)
+    (hwf : et.wf = true) (hb : et.isBasic = true) :
+    (Impl.Repr H (.vector et k) (.seq vs) n →
+      Impl.packedIter H et n (getDepth (Impl.chunkLen et k)) k = some vs) ∧
+    (Impl.Repr H (.list et k) (.seq vs) n →
+      Impl.packedIter H et n (getDepth (Impl.chunkLen et k) + 1) vs.length = some vs) :=
+  ItersLaws.reads_agree_packed H et k vs n hwf hb
+
+/-- … the bit iterator yields the bits of a bitvector / bitlist, … -/
+theorem bit_iteration (H : Hash) (k : Nat) (bs : List Bool) (n : Node) :
+    (Impl.Repr H (.bitvector k) (.bits bs) n →
+      Impl.bitfieldIter H n (getDepth ((k + 255) / 256)) k = some bs) ∧
+    (Impl.Repr H (.bitlist k) (.bits bs) n →
+      ((getLeft n).bind fun l => Impl.bitfieldIter H l (getDepth ((k + 255) / 256)) bs.length)
+        = some bs) :=
+  ItersLaws.reads_agree_bits H k bs n
+
+/-- … and the node iterator (read-only iteration over composite elements, container iteration and
+    unpacking) yields nodes that represent the elements / fields, in order. -/
+theorem node_iteration (H : Hash) (et : Ty) (k : Nat) (fs : List Ty) (vs : List Val) (n : Node)
+    (hb : et.isBasic = false) :
+    (Impl.Repr H (.vector et k) (.seq vs) n →
+      ∃ ns, Impl.nodeIter n (getDepth (Impl.chunkLen et k)) k = some ns ∧ Impl.AllRel (Impl.Repr H et) vs ns) ∧
+    (Impl.Repr H (.list et k) (.seq vs) n →
+      ∃ ns, Impl.nodeIter n (getDepth (Impl.chunkLen et k) + 1) vs.length = some ns ∧
+        Impl.AllRel (Impl.Repr H et) vs ns) ∧
+    (Impl.Repr H (.container fs) (.seq vs) n →
+      ∃ ns, Impl.nodeIter n (getDepth fs.length) fs.length = some ns ∧ Impl.ReprFields H fs vs ns) :=
+  ItersLaws.reads_agree_unpacked H et k fs vs n hb
 
 /-- `==` is equality of roots (its definition in the library); with a collision-free hash equal
     roots give equal subtrees at every position that exists in both trees — so equal roots mean
